@@ -173,7 +173,9 @@ def classify_reject(text, rep, info):
     b = text.encode()
     off = rep.get("offset", 0)
     # every `type ` insertion that does not start a line
-    for m in re.finditer(rb"type [^\n=]*=", b):
+    # (every occurrence is examined on its own: an earlier `type` used as a plain name on the same line must not
+    # swallow the alias statement that follows it)
+    for m in re.finditer(rb"(?<![A-Za-z0-9_\x80-\xff])type (?=[^\n=]*=)", b):
         ls = b.rfind(b"\n", 0, m.start()) + 1
         if b[ls:m.start()].strip(b" \t") != b"" and m.start() <= off <= b.find(b"\n", m.start()) % (len(b) + 1) + 1:
             return "softkw-type-alias-not-at-logical-line-start"
